@@ -163,6 +163,22 @@ func (e *Enc) evalInstr(ins ssa.Instruction, st *State, main bool) (Val, bool) {
 		}
 		st0 := derefType(x.X.Type()).Underlying().(*types.Struct)
 		off := fieldOffset(st0, x.Field)
+		if main && e.pass == 2 && e.Ct != nil && len(e.Ct.TypeInv) > 0 {
+			// an object invariant of the struct type holds for the object whose field is addressed here
+			if n, ok := types.Unalias(derefType(x.X.Type())).(*types.Named); ok {
+				for _, ti := range e.Ct.TypeInv {
+					if ti.Type == n.Obj().Name() && strings.Contains(ti.Clause.Text, st0.Field(x.Field).Name()) {
+						vars := map[string]Val{"self": a}
+						for k, pv := range e.params {
+							vars[k] = pv
+						}
+						env := &Env{e: e, vars: vars, st: st, old: e.entry, pkg: e.Pkg, allocPre: e.entry.Alloc}
+						e.emitAssert(e.curBlock, implies(e.reachHere(), e.evalHyp(ti.Clause.Expr, env))) // (addressing a field of nil panics: execution continues only for a real object)
+						e.assumptions["object invariant of "+ti.Type+" relied on in "+e.fnName+" (re-established by every writer: onstore obligations and onstore-coverage): "+ti.Clause.Text] = true
+					}
+				}
+			}
+		}
 		return Val{T: x.Type(), L: []string{a.L[0], m.iadd(a.L[1], m.ilit(off))}}, true
 	case *ssa.IndexAddr:
 		a := e.val(x.X)
